@@ -361,7 +361,7 @@ class Schema(dict, metaclass=LogicalMeta):
             if unprovided(addition):
                 # ignore addition
                 return
-            return super().__setitem__(alias, value)
+            return super().__setitem__(alias, addition)
 
         return self.__field_setter__(value, field=field)
 
